@@ -90,7 +90,15 @@ def run(ck, a):
       if len(ys) == 1:
         y, arg = ys[0]
         fr2 = Fr()
-        lemmas.append(Ob('lemma/' + name + '/L1 radicand == max(var,0)', pre + [lo > 0, lo <= hi], fr2.formula(arg == v), timeout=60, core=False, kind='lemma'))
+        # L1: the radicand is max(summed_variance', 0) / count' of the code's own outputs (which the update obligation proves equal to the
+        #     reference accumulator);  L3: reference algebra  S2'/n' - (S1'/n')^2 == (S2' - S1'^2/n')/n';  L2: clip structure.
+        svj, cn = lift(sv[j]), lift(cnt[()])
+        lemmas.append(Ob('lemma/' + name + '/L1 radicand == max(summed_variance,0)/count', [cn != 0], fr2.formula(arg == z3.If(svj >= 0, svj, 0) / cn), timeout=60,
+                         core=False, kind='lemma'))
+        fr3 = Fr()
+        lemmas.append(Ob('lemma/' + name + '/L3a var == summed_variance/count (reference algebra)', [lift(rc) != 0],
+                         fr3.formula(var == lift(rsv[j]) / lift(rc)), timeout=60, core=False, kind='lemma'))
+        lemmas.append(Ob('lemma/' + name + '/L3b count > 0', pre, lift(rc) > 0, timeout=60, core=False, kind='lemma'))
         A = z3.Real('A!abs')
         lemmas.append(Ob('lemma/' + name + '/L2 clip structure', [y >= 0, y * y == A, A >= 0, lo > 0, lo <= hi], G(sj, A), timeout=30, core=False, kind='lemma'))
       for l_ in lemmas:
